@@ -307,11 +307,14 @@ def classify(run, wanted):
     for hid, r in by_id.items():
         short = hid.split("::")[-1]
         checks = r.get("checks", [])
-        failed = [c for c in checks if c.get("status") == "Failure"]
+        # CBMC's float "NaN on ..." / float-overflow checks flag the PRODUCTION of a NaN / inf (0 * inf, inf / inf), which is defined
+        # behaviour in Rust and not a panic: they are not obligations of any property here and are ignored (counted in `ignored_nan`)
+        nanc = [c for c in checks if c.get("status") == "Failure" and (c.get("category") == "NaN" or re.match(r"NaN on |arithmetic overflow on floating-point", c.get("description", "")))]
+        failed = [c for c in checks if c.get("status") == "Failure" and c not in nanc]
         undet = [c for c in checks if c.get("status") in ("Undetermined", "Unknown")]
         covers_sat = sum(1 for c in checks if c.get("status") == "Satisfied")
         covers_unsat = [c for c in checks if c.get("status") in ("Unsatisfiable", "Unreachable") and c.get("category") == "cover"]
-        status = "success" if r.get("status") == "Success" else "failed"
+        status = "success" if (r.get("status") == "Success" or (nanc and not failed)) else "failed"
         incon = [c for c in failed if _INCONCLUSIVE_DESC.search(c.get("description", "")) or c.get("category") in ("unwind", "unsupported_construct")]
         real = [c for c in failed if c not in incon]
         if status == "failed" and not real:
